@@ -32,7 +32,7 @@ ASSUMPTIONS = ['the real kernel is not consulted (this sandbox kernel refuses SA
                '(Linux answers these requests with a single NLMSG_ERROR ack)']
 NOT_EXERCISED = ['NLMSG_DONE, multi-part and padded replies', 'ACQUIRE for ICMP flows (type/code instead of ports)']
 EXPECT_REACH = ['newsa_compared', 'policies_compared', 'acquire_decoded', 'expire_soft_decoded', 'expire_hard_decoded', 'delsa_checked',
-                'family.4', 'family.6', 'port.sentinel', 'lifetime.infinite', 'lifetime.finite', 'proto.ah', 'proto.esp', 'mode.tunnel',
+                'family.4', 'family.6', 'family.mixed', 'port.sentinel', 'lifetime.infinite', 'lifetime.finite', 'proto.ah', 'proto.esp', 'mode.tunnel',
                 'mode.transport', 'kernel_error_surfaced']
 AUTH_NAME = {2: 'hmac(sha1)', 12: 'hmac(sha256)', 14: 'hmac(sha512)'}
 AUTH_KEYBITS = {2: 160, 12: 256, 14: 512}
@@ -40,7 +40,7 @@ AUTH_KEYBITS = {2: 160, 12: 256, 14: 512}
 
 def generate(seed, tier):
     r = random.Random(f'C14gen:{seed}')
-    o = {'conf': {'profile': r.choice(['fast', 'mid']), 'entries': 3, 'wide_nets': True, 'infinite_lifetimes': 0.25},
+    o = {'conf': {'profile': r.choice(['fast', 'mid']), 'entries': 3, 'wide_nets': True, 'infinite_lifetimes': 0.25, 'mixed_family': 0.25},
          'both_initiate': r.random() < 0.4, 'packets': r.randint(2, 6), 'duration': r.choice([25, 45]), 'forced': 4,
          'forced_kinds': ['expire_soft', 'expire_hard'], 'faults': []}
     sc = workload.pair_scenario(seed, PROP, o)
@@ -165,6 +165,8 @@ def judge(w, tap, ctx, scenario, reach):
             reach['proto.esp' if ch['proto'] == 3 else 'proto.ah'] = 1
             reach['mode.transport' if ch['transport'] else 'mode.tunnel'] = 1
             reach['family.4' if sfam == K['AF_INET'] else 'family.6'] = 1
+            if sfam != fam:
+                reach['family.mixed'] = 1
             if {ts_src[1], ts_dst[1]} & {1, 255, 256, 65535}:
                 reach['port.sentinel'] = 1
     # ---- 4. DELSA requests name SAs by (daddr for the right family, proto, SPI) that were installed
